@@ -133,11 +133,11 @@ PROPS["C07"] = dict(
 )
 PROPS["C10"] = dict(
     level="other",
-    claim="Every eager entry point under array/array (209) builds exactly one view by calling view::<its own name> with its own leading parameters in declaration order and returns eval() of that view with context, output and resolver forwarded; so the eager result is the evaluation of the lazy view the user would have built. The evaluator's copy loop is checked separately (R-EVAL).",
+    claim="Every eager entry point under array/array (209) builds exactly one view by calling view::<its own name> with its own leading parameters in declaration order and returns eval() of that view with context, output and resolver forwarded; so the eager result is the evaluation of the lazy view the user would have built. R-EVAL: in every instantiated default evaluator the copy is output[ndindex(shape(output))[i]] = view[ndindex(shape(view))[i]] for i < ndindex(shape(view)).size(), reached only after shape(output)==shape(view), and the allocating overload resizes the result to shape(view) before the copy and returns it.",
     note=E2_NOTE,
     technique=E2_TECH,
-    e2=[dict(rule="R-FWD.array")],
-    rule="E2: one instance per function template with a `context` parameter under include/nmtools/array/array; distinct by qualified name and parameter list",
+    e2=[dict(rule="R-FWD.array"), dict(rule="R-EVAL")],
+    rule="E2: one instance per function template with a `context` parameter under include/nmtools/array/array (distinct by qualified name and parameter list); one instance per instantiated member of the default evaluator (R-EVAL)",
     explanation="Wrapper forwarding is visible in the shape of the code: wrong view, permuted/dropped/duplicated argument or evaluation of a different object is reported with the wrapper's name.",
     not_decided="composition unobservability (value level), result type adequacy (C11), non-default contexts",
     assumptions=["exception table tools/fwd_tables.json (4 entries, one reason each)"],
